@@ -1,4 +1,5 @@
 """C13 — closed-form volumes of the primitives equal the true geometric volume (spec/VolPrim.tla)."""
+from harness import lib
 import math
 import numpy as np
 
@@ -37,11 +38,11 @@ def execute(c):
         if k == "sphfru":
             v = s.intersect(f).get_volume()
         else:
-            v = (f.union(s) if c["cid"] % 2 else s.union(f)).get_volume()
+            v = (f.union(s) if lib.vid(c) % 2 else s.union(f)).get_volume()
     v = float(v) / (math.pi * u ** 3)
     num, den = c["exp"]
     r = v * 1e9 if num == 0 else v / (num / den) * 1e9
-    return {"ratio": int(max(-2e9, min(2e9, round(r))))}
+    return {"ratio": int(max(-1e9, min(2e9, round(r))))}
 
 
 def keyfn(c, o, why):
